@@ -90,6 +90,7 @@ def stepLine (st : St) (ws : List String) (_impl : String) : St × Ans :=
               | _ => (st, bad)
           | none => (st, { m := "bad-target" })
       | _, _, _, _, _, _ => (st, bad)
+  | ["transport", _] => (st, { m := "ok" })
   | ["conn", name, guid] =>
       match (guid.dropPrefix? "guid=").bind (fun g => bytesOfHex g.toString) with
       | some g => ({ st with b := accept st.b name g, order := st.order ++ [name] }, { m := "ok" })
@@ -106,6 +107,19 @@ def stepLine (st : St) (ws : List String) (_impl : String) : St × Ans :=
       match mid.toNat?, st.topic k rest with
       | some mid, some t => apply st name (.unsubscribe (UInt16.ofNat mid) t) false false none
       | _, _ => (st, bad)
+  | ["burst", _hold, n, mid0, k, rest, _watcher, names] =>
+      -- every listed connection sends n SUBSCRIBE / UNSUBSCRIBE pairs back to back, all at once; the
+      -- comparison groups notifications per source connection, so the model serves the connections one
+      -- after the other
+      match n.toNat?, mid0.toNat?, st.topic k rest with
+      | some n, some mid0, some t =>
+          let (b, out) := (names.splitOn ",").foldl (fun (acc : B × Out) name =>
+            (List.range n).foldl (fun (acc : B × Out) i =>
+              let (b1, o1) := step st.auth acc.1 name (.subscribe (UInt16.ofNat (mid0 + 2 * i)) t 0)
+              let (b2, o2) := step st.auth b1 name (.unsubscribe (UInt16.ofNat (mid0 + 2 * i + 1)) t)
+              (b2, acc.2 ++ o1 ++ o2)) acc) (st.b, [])
+          ({ st with b := b }, { m := renderOut st out false false none })
+      | _, _, _ => (st, bad)
   | ["pub", name, qos, retain, mid, k, rest, payload] =>
       match qos.toNat?, mid.toNat?, st.topic k rest, bytesOfHex payload with
       | some q, some mid, some t, some p =>
